@@ -446,3 +446,77 @@ def check_counter_tracks_runq(chk, m, K, member):
     chk.expect("S12", "segments that change the run queue or its counter", n, 2)
     _COUNTER_VERDICT[key] = verdict
     return verdict
+
+
+
+def _value_queue(v, K):
+    """kernel queue named by an IR operand (&kernel.runq ...), or None"""
+    if v.k == "global" and v.name == "kernel":
+        return K.queue_arg(("p", ("g", "kernel"), 0, ()))
+    if v.k == "cexpr" and v.d.get("op") == "getelementptr":
+        ops = v.cexpr_ops()
+        if ops and ops[0].k == "global" and ops[0].name == "kernel" and "off" in v.d:
+            return K.queue_arg(("p", ("g", "kernel"), v.d["off"], ()))
+    if v.k == "cexpr" and v.d.get("op") == "bitcast":
+        return _value_queue(v.cexpr_ops()[0], K)
+    return None
+
+
+def check_iterator_validity(chk, m, K, rule="T3.iterator-valid"):
+    """list.h: an iterator stays usable only while the list is changed THROUGH it (list_iterator_remove / _insert).  In every
+    function of the scheduler that walks a kernel queue with an iterator: no removal from that queue by another route
+    (list_remove / list_extract, directly or inside a helper of this unit) may be followed by a further use of the iterator.
+    A stale iterator ends the walk early or relinks through a node that has left the list."""
+    removers = {}
+
+    def helper_removes(name, depth=0):
+        """queues a helper of this unit may remove from"""
+        if name in removers:
+            return removers[name]
+        removers[name] = set()
+        g = m.functions.get(name)
+        if g is None or g.decl or depth > 3:
+            return removers[name]
+        out = set()
+        for c in g.calls():
+            if c.callee in ("list_remove", "list_extract") and c.args:
+                q = _value_queue(c.args[0], K)
+                if q:
+                    out.add(q)
+            elif isinstance(c.callee, str) and m.has_fn(c.callee):
+                out |= helper_removes(c.callee, depth + 1)
+        removers[name] = out
+        return out
+    n = 0
+    for fn in m.defined_functions():
+        its = [c for c in fn.calls("list_iterate") if len(c.args) == 2 and _value_queue(c.args[0], K)]
+        for it in its:
+            q = _value_queue(it.args[0], K)
+            itv = it.args[1]
+            if itv.k != "inst":
+                continue
+            n += 1
+            uses = [c for c in fn.calls() if c.callee in ("list_iterator_next", "list_iterator_remove", "list_iterator_insert")
+                    and c.args and c.args[0].k == "inst" and c.args[0].name == itv.name]
+            mods = []
+            for c in fn.calls():
+                if c.callee in ("list_remove", "list_extract") and c.args and _value_queue(c.args[0], K) == q:
+                    mods.append((c, c.callee))
+                elif isinstance(c.callee, str) and m.has_fn(c.callee) and q in helper_removes(c.callee):
+                    mods.append((c, "%s (which removes from kernel.%s)" % (c.callee, q)))
+            bad = None
+            for c, what in mods:
+                for u in uses:
+                    if fn.can_reach(c, u, avoid_insts=its):
+                        bad = (c, what, u)
+                        break
+                if bad:
+                    break
+            chk.ob(rule, "%s iterator %s over kernel.%s" % (fn.name, itv.name, q), bad is None,
+                   "while the iterator is in use the queue is changed only through it (%d other removal(s) in this function, none "
+                   "followed by a use of the iterator)" % len(mods) if bad is None else
+                   "%s at %s takes a node off kernel.%s behind the iterator's back and %s at %s uses the iterator afterwards: the "
+                   "iterator's position may be the node that left the list, so the walk ends early (expired fibres stay on the timer "
+                   "queue) or relinks through a dead node" % (bad[1], bad[0].loc, q, bad[2].callee, bad[2].loc),
+                   (bad[0].loc if bad else it.loc), fn.name)
+    return n
